@@ -80,8 +80,10 @@ def expected(apts, lpts):
         if len(apts) > 2:
             vx, vy = pr.peval(dpx, t), pr.peval(dpy, t)
             sp = vx * vx + vy * vy
-            if sp == 0:
-                return "cusp"
+            leg2 = max((F(q[0]) - F(p_[0])) ** 2 + (F(q[1]) - F(p_[1])) ** 2 for p_, q in zip(apts, apts[1:]))
+            if sp <= F(1, 10 ** 16) * leg2:
+                return "cusp"             # the velocity vanishes at the meeting point (t is the midpoint of a 1e-14 isolating interval, so
+                                          # "vanishes" is a relative test): a turning point of a retracing curve touches, it does not cross
             gd = pr.peval(dg, t)
             if gd * gd < F(4, 10000) * sp * n2:
                 return "tangent"          # includes every multiple root inside the window (g' vanishes there); a tangency of the
